@@ -16,6 +16,7 @@ CONSTANTS
   EmitEvery = 20
   Faults = {"cutsrc", "endsrc", "cutsink", "softcut"}
   WithBind = FALSE
+  MaxNow = 0
   WithBridge = FALSE
 INVARIANTS Emit NoViolation
 CHECK_DEADLOCK FALSE
